@@ -105,15 +105,20 @@ func targetsToRemove(graph *core.BuildGraph, filter, targets, targetsToKeep []co
 	if !includeTests {
 		// This is a bit complex - need to identify any tests that are tests "on" the set of things
 		// we've already decided to keep.
-		for _, target := range graph.AllTargets() {
-			if target.IsTest() {
-				for _, dep := range publicDependencies(graph, target) {
-					if keepTargets[dep] && !dep.TestOnly {
-						log.Debug("Keeping test %s on %s", target.Label, dep.Label)
-						addTarget(graph, keepTargets, target)
-					} else if dep.TestOnly {
-						log.Debug("Keeping test-only target %s", dep.Label)
-						addTarget(graph, keepTargets, dep)
+		// Keeping a test can keep more targets which other tests are in turn "on", so go round again
+		// until nothing changes (otherwise the result depends on the order we visit the tests in).
+		for before := -1; before != len(keepTargets); {
+			before = len(keepTargets)
+			for _, target := range graph.AllTargets() {
+				if target.IsTest() {
+					for _, dep := range publicDependencies(graph, target) {
+						if keepTargets[dep] && !dep.TestOnly {
+							log.Debug("Keeping test %s on %s", target.Label, dep.Label)
+							addTarget(graph, keepTargets, target)
+						} else if dep.TestOnly {
+							log.Debug("Keeping test-only target %s", dep.Label)
+							addTarget(graph, keepTargets, dep)
+						}
 					}
 				}
 			}
